@@ -22,8 +22,8 @@ LEAN_MODULE = 'Pycel.Props.C04'
 NS = 'Pycel.Needed.'
 THEOREMS = [NS + t for t in (
     'handlers_spec', 'addr_funcs_spec', 'ref_params_spec',
-    'C04_scan_context', 'C04_scan_complete', 'C04_reads_covered', 'C04_reads_env_independent',
-    'C04_range_members', 'C04_edges', 'C04_ancestors', 'C04_influence',
+    'C04_scan_context', 'C04_scan_complete', 'C04_reads_covered',
+    'C04_edges', 'C04_range_members', 'C04_ancestors', 'C04_influence',
     'written_satisfiable', 'computed_not_written')]
 DESIGN_REF = 'DESIGN.md §7 C04'
 RULE = ('kind f: one formula (a tree over the reference forms plain / $ / sheet-qualified / quoted sheet / range / '
